@@ -238,6 +238,36 @@ async def run_case(ctx, rng, index):
                         ctx.violation("source-started-for-invalid-request", "reused fragment name: %s" % (wb.source_log[:2],), dict(case, query=d2.text))
                 except Exception as e:  # noqa
                     ctx.violation("subscribe-raised", "invalid request (reused fragment name): %r" % e, case)
+            # ... and a document of TWO subscription operations: the valid one first, then a copy of it that selects a second
+            # root field next to the same root-level fragment spread; the later operation is the one asked for (state a rule
+            # keeps while walking the earlier operation - e.g. fragments already visited - must not excuse the later one)
+            if req.op.selset and req.op.selset[0].kind == "spread":
+                import copy
+                d2 = copy.deepcopy(req.doc)
+                op1 = [o for o in d2.ops if o.name == req.op.name][0]
+                if op1.name is None:
+                    op1.name = "First_"
+                op2 = copy.deepcopy(op1)
+                op2.name = "Both_"
+                op2.selset.append(docgen.FieldSel("__typename", alias="secondRoot_"))
+                d2.ops.append(op2)
+                d2.order.append(("op", len(d2.ops) - 1))
+                docgen.print_doc(d2, rng, {"multiline": False, "nl": "\n", "shorthand": False})
+                bad = X.Request(d2, d2.text, op2, req.variables, req.wseed, False, True)
+                wb = world_mod.World(s, req.wseed)
+                wb.events = ["obj", "obj"]
+                try:
+                    gotb = await consume(b.engine, bad, wb)
+                    st.inc("evaluations")
+                    st.inc("invalid_requests_later_operation_of_two")
+                    if len(gotb) != 1 or gotb[0].get("data") is not None or not gotb[0].get("errors"):
+                        ctx.violation("invalid-subscription-not-single-error", "later of two operations selects two root fields: %s" % X.jdump(gotb)[:300],
+                                      dict(case, query=d2.text, operation_name="Both_"))
+                    if wb.source_log or wb.calls:
+                        ctx.violation("source-started-for-invalid-request", "later of two operations: %s" % (wb.source_log[:2],),
+                                      dict(case, query=d2.text, operation_name="Both_"))
+                except Exception as e:  # noqa
+                    ctx.violation("subscribe-raised", "invalid request (later of two operations): %r" % e, case)
             # the SAME root field under a second alias: two response keys, still one field name
             if req.op.selset and req.op.selset[0].kind == "field" and len(req.op.selset) == 1:
                 import copy
